@@ -37,6 +37,10 @@ def _events():
             evs.append(["swap", k, v])
             if k in OVERLAY_KEYS:
                 evs.append(["overlay", k, v])
+    # one key given twice (positional mapping and keyword), and a scope whose entry fails half-way
+    # (the second variable's conversion raises): nothing of a scope that never existed may stay
+    evs.append(["swapdup", "FOO", "s1", "s2"])
+    evs.append(["swapfail", "FOO", "s"])
     evs.append(["exit", "return"])
     evs.append(["exit", "raise"])
     for k in KEYS:
@@ -120,7 +124,7 @@ class Harness:
         out = []
         sk = self.scoped_keys()
         for ev in self.events:
-            if ev[0] in ("swap", "overlay") and len(self.scopes) >= MAXNEST:
+            if ev[0] in ("swap", "overlay", "swapdup") and len(self.scopes) >= MAXNEST:
                 continue
             if ev[0] == "exit" and not self.scopes:
                 continue
@@ -286,6 +290,24 @@ class Harness:
             self.cms.append(cm)
             self.ovs.append(ov)
             self.scopes.append((kind, {k: v}))
+        elif kind == "swapdup":
+            k, v1, v2 = ev[1], ev[2], ev[3]
+            cm = env.swap({k: v1}, **{k: v2})
+            cm.__enter__()
+            self.cms.append(cm)
+            self.ovs.append(None)
+            self.scopes.append(("swap", {k: v2}))
+        elif kind == "swapfail":
+            k, v = ev[1], ev[2]
+            cm = env.swap({k: v, "XONSH_HISTORY_SIZE": "not-a-size"})
+            try:
+                cm.__enter__()
+                entered = True
+            except ValueError:
+                entered = False
+            if entered:
+                raise common.ToolError("harness: swap(XONSH_HISTORY_SIZE='not-a-size') was expected to fail on entry")
+            # the scope never existed: the reference is unchanged
         elif kind == "exit":
             cm = self.cms.pop()
             self.ovs.pop()
